@@ -1032,7 +1032,7 @@ where
     pub fn size(&self, weighted: bool) -> f64 {
         match weighted {
             false => self.get_all_edges().len() as f64,
-            true => self.get_all_edges().iter().map(|e| e.weight).sum(),
+            true => crate::ext::float::ordered_sum(self.get_all_edges().iter().map(|e| e.weight)),
         }
     }
 
